@@ -216,7 +216,7 @@ def resolve_entity(entity):
                 return chr(int(entity[3:-1], 16))
             else:
                 return chr(int(entity[2:-1]))
-        except ValueError:
+        except (ValueError, OverflowError):  # not a number, or no such code point (&#99999999999;)
             return entity
     else:
         try:
